@@ -942,7 +942,7 @@ fn main() {
     mon.assume("Instant::now() read immediately before and after a call brackets the limiter's own reading; verdicts that depend on where inside the bracket it fell are skipped and counted");
     mon.assume("window = 0 (infinite rate) is not generated; token comparisons carry 1e-6 tolerance for the limiter's f64 accumulation");
     mon.assume("TransportHandle built through the verif seam uses a disabled limiter (u32::MAX/4), so the accept-loop limiter is exercised as validation::RateLimiter with the production default and random configs");
-    let rounds = mon.by_tier(60u64, 520);
+    let rounds = mon.by_tier(180u64, 520);
     vkit::run_shards(mon.shards(), mon.seed, |i, mut rng| {
         for k in 0..rounds {
             if mon.time_up() {
